@@ -132,7 +132,7 @@ func builderEffect(r *Repo, method string, nargs int) bEffect {
 }
 
 func checkC10(c *Check) {
-	c.Explain = "Decides structural conditions on the self-hosted grammar peg.peg (read by an independent .peg reader) and on the builder it drives. R-stack-effect: each Tree.Add* method gets a summary (nodes popped from / pushed to the stack side, pushed to the queue side) by evaluating its source on a marked tree; the grammar is then typed: every alternative of a choice and every optional part has the same net effect, repetition bodies are neutral, lookaheads contribute nothing, recursion is solved as a fixpoint; obligations: every rule has one net effect and never pops below its entry depth, the start rule is neutral — because actions replay in derivation order (C04) this is a statement about every parse of every grammar text, and it is what makes 'every primary pushes exactly one node' true. R-escape-table: each letter escape's action argument decodes to the code point the convention assigns; R-escape-range: evaluating AddOctalCharacter/AddHexaCharacter on every string of the octal capture patterns and on boundary hex strings yields the denoted code point. R-quote-routing: single-quoted literals and [..] classes cannot reach the case-folding builders, double-quoted and [[..]] reach letters only through them, both ^ forms are followed by PeekNot;Dot;Sequence, and the case-folding builders produce the lower/upper alternation. R-precedence: operand rules of a level-ℓ operator action cannot reach a lower-level operator action except through parentheses or <>. R-spellings: # and // comments, <- and ←. R-import-alias: the repository's formatImport literal and Compile's first pass are evaluated on import lists the builder produces: each user import is printed once with exactly its alias and path; R-import-routing: the grammar passes alias then the quoted path; R-action-braces: the action rule is '{' <B*> '}' with B → non-brace | '{' B* '}'. R-reject: the start rule ends in end-of-file and Execute/Compile are reached only when Parse returned nil. NOT decided: that each construct behaves as documented once built (C01 on the built tree); every spelling variant of whitespace."
+	c.Explain = "Decides structural conditions on the self-hosted grammar peg.peg (read by an independent .peg reader) and on the builder it drives. R-stack-effect: each Tree.Add* method gets a summary (nodes popped from / pushed to the stack side, pushed to the queue side) by evaluating its source on a marked tree; the grammar is then typed: every alternative of a choice and every optional part has the same net effect, repetition bodies are neutral, lookaheads contribute nothing, recursion is solved as a fixpoint; obligations: every rule has one net effect and never pops below its entry depth, the start rule is neutral — because actions replay in derivation order (C04) this is a statement about every parse of every grammar text, and it is what makes 'every primary pushes exactly one node' true. R-escape-table: each letter escape's action argument decodes to the code point the convention assigns; R-escape-capture: the hex alternative captures the longest run of hex digits in either case and the octal alternatives up to three octal digits ≤ 0377 (the capture patterns are matched against all short digit strings); R-escape-range: evaluating AddOctalCharacter/AddHexaCharacter on every string of the octal capture patterns and on boundary hex strings yields the denoted code point. R-quote-routing: single-quoted literals and [..] classes cannot reach the case-folding builders, double-quoted and [[..]] reach letters only through them, both ^ forms are followed by PeekNot;Dot;Sequence, and the case-folding builders produce the lower/upper alternation. R-precedence: operand rules of a level-ℓ operator action cannot reach a lower-level operator action except through parentheses or <>. R-spellings: # and // comments, <- and ←. R-import-alias: the repository's formatImport literal and Compile's first pass are evaluated on import lists the builder produces: each user import is printed once with exactly its alias and path; R-import-routing: the grammar passes alias then the quoted path; R-action-braces: the action rule is '{' <B*> '}' with B → non-brace | '{' B* '}'. R-reject: the start rule ends in end-of-file and Execute/Compile are reached only when Parse returned nil. NOT decided: that each construct behaves as documented once built (C01 on the built tree); every spelling variant of whitespace."
 	c.Assume = []string{"actions run once each in derivation order (C04)", "the .peg reader in pegreader.go reads peg.peg as documented"}
 	c.Trusted = []string{"pegreader.go", "interp.go for the builder summaries", "strconv"}
 	r := mustRepo(c)
@@ -156,6 +156,7 @@ func checkC10(c *Check) {
 	}
 	stackEffects(c, r, g)
 	escapeTable(c, r, g)
+	escapeCaptures(c, g)
 	quoteRouting(c, r, g)
 	precedence(c, g)
 	spellings(c, g)
